@@ -25,11 +25,12 @@ def trailing(text):
 
 
 def observe(case):
-    a, k = case
+    a, k = case[:2]
+    vflag = len(case) > 2 and case[2]
     b = a[: len(a) - k]
-    _, ta, ea = project.parse_text(a)
-    _, tb, eb = project.parse_text(b)
-    return {"op": "trunc", "a": cps(a), "b": cps(b), "k": k,
+    _, ta, ea = project.parse_text(a, vflag)
+    _, tb, eb = project.parse_text(b, vflag)
+    return {"op": "trunc", "a": cps(a), "b": cps(b), "k": k, "vflag": bool(vflag),
             "ta": ta or [], "tb": tb or [], "ea": ea or "", "eb": eb or ""}
 
 
@@ -72,6 +73,15 @@ def cases(tier, rng):
             t = trailing(p)
         for k in range(1, t + 1):
             out.append((p, k))
+    # flag V (one-character variable names): every program above that mentions a variable, and the
+    # last-token family with one- and two-letter variables
+    vcases = [c for c in out if "→" in c[0] or "←" in c[0]]
+    for tok in ("→x", "←x", "→xy", "←xy", "→", "←", "→x1", "←_", "→x→y", "1→x"):
+        for ctx in ("[1 □]", "λ□;", "⟨1|□⟩", "(□)", "{1|□}", "[(λ⟨□⟩;)]", "@f|□;", "ƛ□;", "5(λn□;)"):
+            p = ctx.replace("□", tok)
+            for k in range(1, trailing(p) + 1):
+                vcases.append((p, k))
+    out += [(p, k, True) for p, k in vcases]
     # de-duplicate, keep order
     seen = set()
     res = []
@@ -99,7 +109,7 @@ def main(tier):
         verdicts, st = tlc.validate(s, "Trace_Parse", obs, cfg="Trace_Parse.cfg", chunk=4000)
     tally = {}
     nontrivial = set()
-    for (a, k), v in zip(cs, verdicts):
+    for (a, k, *_), v in zip(cs, verdicts):
         key = v.split(":")[0]
         tally[v] = tally.get(v, 0) + 1
         if key == "violation":
@@ -115,7 +125,7 @@ def main(tier):
         {
             "states": mc["distinct"], "transitions": mc["generated"],
             "traces_validated_against_impl": sum(v for k, v in tally.items() if not k.startswith("skip")),
-            "samples": [{"program": a, "dropped": k, "verdict": v} for (a, k), v in
+            "samples": [{"program": a, "dropped": k, "verdict": v} for (a, k, *_), v in
                         list(zip(cs, verdicts))[:: max(1, len(cs) // 12)][:12]],
             "evaluations": len(cs), "distinct_nontrivial": len(nontrivial),
             "rule": "every string <= n symbols over the 21-symbol structural alphabet that ends in "
